@@ -1,6 +1,11 @@
 """Source of MANIFEST.json (python engine/manifest_gen.py)."""
 REALS = "C doubles / numpy float64 are decided as exact reals (rounding is outside the claim); geometry is concrete and listed in the evidence; "
 CHECKS = [
+    {"id": "C08", "engine": "llsym+symnp",
+     "technique": "symbolic execution of the Wang and Gonze-Lee NAC kernels (IR) under the real run_dynamical_matrix_solver_c on z3 Reals for Born charges, dielectric tensor, direction and force constants; per-entry NRA rational-function identities against the closed form; LRA/NRA for the commensurate-q and zero-charge no-op claims",
+     "text": "Bounded symbolic model checking: Wang Gamma limit equals the closed form for all Z, eps (slice 1) and all directions n (slice 2), is independent of |n|, vanishes at every non-zero commensurate q for all Z, and zero Born charges make both methods a no-op for all force constants; Gonze-Lee direction dependence equals the closed-form difference for all n, absolute level compared numerically.",
+     "design_ref": "DESIGN.md 3/C08",
+     "note": REALS + "Gonze-Lee with symbolic eps/Z is out of reach (exp of symbolic argument); fully symbolic (Z, eps, n together) identities are inconclusive in z3 and only run in the thorough tier."},
     {"id": "C11", "engine": "llsym+symnp",
      "technique": "symbolic execution of the tetrahedron-method IR (_n/_g/_I/_J, sort + case split by path forking, grid-index arithmetic) on z3 Reals/Ints; NRA range/sum/monotonicity/continuity queries, derivative identities by tree differentiation of the executed terms, C==Python per case, LRA tiling queries on the tables, LIA on grid lookup",
      "text": "Bounded symbolic model checking of the tetrahedron method: for all ordered vertex frequencies and omega in each case the weights are in range, sum to one, n is monotone/continuous with g its derivative and I g the derivative of J n; every sort/case path of thm_get_integration_weight returns the case formula of the sorted vertices; the tables are four translates of six microcell-tiling tetrahedra per main diagonal and equal the Python tables; grid lookup equals the documented index for all addresses in [-2N,2N].",
@@ -43,7 +48,7 @@ CHECKS = [
      "note": REALS + "clang -O0 IR semantics as implemented by engine/llsym.py, validated at start against the compiled code; nanobind itself replaced by a stand-in header."},
 ]
 _NA = "not yet claimed in this revision (check under construction; see DESIGN.md section 3)"
-NOT_APPLICABLE = [{"property_id": "C%02d" % k, "reason": _NA} for k in range(1, 21) if k not in (2, 3, 4, 6, 7, 10, 11, 13)]
+NOT_APPLICABLE = [{"property_id": "C%02d" % k, "reason": _NA} for k in range(1, 21) if k not in (2, 3, 4, 6, 7, 8, 10, 11, 13)]
 for n in NOT_APPLICABLE:
     if n["property_id"] == "C18":
         n["reason"] = "whole-program CLI runs through argparse, file I/O and yaml with string-typed settings: no solver-decidable core (DESIGN.md section 4)"
